@@ -600,7 +600,9 @@ func runC09(c *Ctx) {
 	r.Doc("T1", "passAt is set by the constructor (the first timeout counts from creation) and otherwise only after a send, in the ticker clause or at the end - never on a path that only accepted an element", 3)
 	r.Doc("J6", "(greedy batching) after an ingest: flush or leave under len(B) < JoinSize", 3)
 	r.Doc("J7", "(greedy batching, unite) fit facts", 1)
+	r.Doc("J1", "(end of input) the loops end, and flush, only when the input was observed closed (comma-ok / range): a nil or empty slice is data, not the end", 6)
 	for _, jr := range joinDiscs(c) {
+		checkJ1(c, jr)
 		checkM1(c, jr)
 		checkM2(c, jr)
 		checkT2(c, jr)
